@@ -36,3 +36,48 @@ Definition check_strs (l : list (N * bstr * bool * bstr * bstr * bstr * bstr)) :
 Definition check_sign (l : list (N * bstr * utoken * option bstr)) : list (N * N) :=
   filter_map (fun c => match c with (id, alg, t, exp) =>
     if obeq (sign_payload_opt alg t) exp then None else Some (id, 1) end) l.
+
+(* ------------------------------------------------------------------ *)
+(* the same check with the DID strings of the (few) distinct principals computed once per
+   case file: base58 of an RSA key is the expensive part.  Proved equal to check_sign. *)
+
+Definition did_table (dids : list bstr) : list (bstr * bstr) := map (fun b => (b, did_string b)) dids.
+Definition memo_did (tbl : list (bstr * bstr)) (b : bstr) : bstr :=
+  match slookup b tbl with Some s => s | None => did_string b end.
+
+Lemma memo_did_eq dids b : memo_did (did_table dids) b = did_string b.
+Proof.
+  unfold memo_did. induction dids as [|d dids IH]; [reflexivity|].
+  cbn [did_table map slookup]. destruct (beq b d) eqn:E; [apply beq_eq in E; subst; reflexivity | exact IH].
+Qed.
+
+Definition payload_ipld_with (ds : bstr -> bstr) (t : utoken) (with_nnc_nbf : bool) : ipld :=
+  struct_map [
+    field k_iss (IString (ds (u_iss t)));
+    field k_aud (IString (ds (u_aud t)));
+    field k_att (IList (map cap_ipld (u_att t)));
+    field k_prf (IList (map (fun c => IString (cid_string c)) (prf_list t)));
+    field k_exp (nullable (option_map IInt (u_exp t)));
+    opt_field k_fct (option_map (fun l => IList (map IMap l)) (u_fct t));
+    opt_field k_nnc (if with_nnc_nbf then option_map IString (u_nnc t) else None);
+    opt_field k_nbf (if with_nnc_nbf then option_map IInt (u_nbf t) else None) ].
+
+Lemma payload_ipld_with_eq ds t full : (forall b, ds b = did_string b) -> payload_ipld_with ds t full = payload_ipld t full.
+Proof. intros H. unfold payload_ipld_with, payload_ipld. rewrite !H. reflexivity. Qed.
+
+Definition sign_payload_opt_with (ds : bstr -> bstr) (alg : bstr) (t : utoken) : option bstr :=
+  let p := payload_ipld_with ds t true in
+  if json_encodable p then Some (sign_bytes alg (u_v t) p) else None.
+
+Definition check_sign_memo (dids : list bstr) (l : list (N * bstr * utoken * option bstr)) : list (N * N) :=
+  let tbl := did_table dids in
+  filter_map (fun c => match c with (id, alg, t, exp) =>
+    if obeq (sign_payload_opt_with (memo_did tbl) alg t) exp then None else Some (id, 1) end) l.
+
+Theorem check_sign_memo_eq dids l : check_sign_memo dids l = check_sign l.
+Proof.
+  unfold check_sign_memo, check_sign. cbv zeta.
+  induction l as [|[[[id alg] t] exp] l IH]; [reflexivity|].
+  cbn [filter_map]. rewrite IH. unfold sign_payload_opt_with, sign_payload_opt.
+  rewrite (payload_ipld_with_eq (memo_did (did_table dids)) t true (memo_did_eq dids)). reflexivity.
+Qed.
